@@ -48,7 +48,7 @@ func runC07(c *ctxT) {
 	if c.Thorough {
 		nRandom = 150
 	}
-	r.Rule = "enumerated: 3 fixed request scripts × single fault at mutating cloud call 1..12 × 7 fault kinds (err-before, err-after, partial, quota-eni, vsw-exhaust, quota-ip, half-created) — every first-order placement; random: pool histories with 1..6 faults among the first 30 cloud calls combined with request cancellation. After the clients finish faults stop and the pool is driven to quiescence in <= 100 counted rounds (clear inhibit, balancer, sync, settle); then pool Status() is compared with the cloud (ENIs, addresses), owners with the ledger, idle count with the min/max band. distinct = distinct (script|random, fault position, kind, API hit) placements + event-log signatures"
+	r.Rule = "enumerated: 4 fixed request scripts × single fault at mutating cloud call 1..24 (positions beyond the client phase hit the unassign/delete calls of the shrinking tail) × 7 fault kinds (err-before, err-after, partial, quota-eni, vsw-exhaust, quota-ip, half-created) — every first-order placement; random: pool histories with 1..6 faults among the first 30 cloud calls combined with request cancellation. After the clients finish faults stop and the pool is driven to quiescence in <= 100 counted rounds (clear inhibit, balancer, sync, settle); then pool Status() is compared with the cloud (ENIs, addresses), owners with the ledger, idle count with the min/max band. distinct = distinct (script|random, fault position, kind, API hit) placements + event-log signatures"
 	r.Assumptions = []string{"cloud simulated at the factory.Factory boundary; an error-after-effect on create/assign reports what was created (as pkg/factory/aliyun does); unassign/delete are idempotent", "no cloud drift in C07 histories (the property quantifies over fault placements)", "'eventually' is decided as bounded progress: 100 balancer/sync rounds after faults stop"}
 
 	// ---- enumeration: split over batches ----
@@ -59,7 +59,7 @@ func runC07(c *ctxT) {
 	}
 	var all []placement
 	for s := range scripts {
-		for pos := 1; pos <= 12; pos++ {
+		for pos := 1; pos <= 24; pos++ {
 			for _, k := range c07Kinds {
 				all = append(all, placement{s, pos, k})
 			}
@@ -78,7 +78,7 @@ func runC07(c *ctxT) {
 		cfg.LatencyUS = 500
 		return cfg
 	}, func(h *poolHist) {
-		c07Quiesce(h)
+		c07Quiesce(h, true)
 		// which API did the fault hit?
 		api := "none"
 		for _, cl := range h.cloud.Calls() {
@@ -108,18 +108,25 @@ func runC07(c *ctxT) {
 		}
 		return cfg
 	}, func(h *poolHist) {
-		c07Quiesce(h)
+		c07Quiesce(h, false)
 	})
 }
 
 // c07Quiesce: faults off, bounded rounds to a fixed point, then the agreement oracle.
-func c07Quiesce(h *poolHist) {
-	h.cloud.StopFaults()
+// lateFaults: a single planned fault whose position lies beyond the client phase (the unassign / delete calls
+// of the shrinking tail) still fires; faults stop after 12 rounds.
+func c07Quiesce(h *poolHist, lateFaults bool) {
+	if !lateFaults {
+		h.cloud.StopFaults()
+	}
 	rounds := 0
 	fixed := false
 	last := ""
 	same := 0
 	for rounds = 1; rounds <= 100; rounds++ {
+		if rounds == 12 {
+			h.cloud.StopFaults()
+		}
 		for _, lo := range h.locals {
 			lo.VerifClearInhibit()
 		}
